@@ -56,7 +56,7 @@ def run(ctx, driver):
     ctx.rule = ("generated systems (17 coupling shapes incl. nonlinear / higher order / offsets), analysis stopped before propagators; symbolic Jacobian "
                 "evaluated at a random rational point vs d(user rhs)/dx from the input text; the expression handed to sympy.diff vs the model; "
                 "plus numerical_jacobian vs central differences of step() on 4 fixed systems; distinct = distinct inputs; non-trivial = system with a non-zero A and >= 2 variables or a nonlinearity")
-    cases = _shared.gen_cases(ctx, 130 if quick else 2500, stop_frac=1.0)
+    cases = _shared.gen_cases(ctx, ctx.n(130, 2500), stop_frac=1.0)
     for c in cases:
         c["stop"] = True
         c.setdefault("flags", {})["disable_analytic_solver"] = True
@@ -92,7 +92,7 @@ def run(ctx, driver):
     ctx.sample({"indict": cases[-1]["indict"], "J": results[-1].get("J") if isinstance(results[-1], dict) else None})
     _shared.corr_subsys(ctx, driver, cases, results)
     # ---- numerical clause (runtime; not a theorem)
-    ncases = [{"indict": NUM_SYSTEMS[i % len(NUM_SYSTEMS)], "seed": ctx.seed * 100 + i} for i in range(4 if quick else 24)]
+    ncases = [{"indict": NUM_SYSTEMS[i % len(NUM_SYSTEMS)], "seed": ctx.seed * 100 + i} for i in range(ctx.n(4, 24))]
     nres = pool.run_cases("harness.props.c10", "case_numeric_jacobian", ncases, timeout=120, init="_init_worker", deadline=ctx.deadline())
     for case, res in zip(ncases, nres):
         ctx.evaluations += 1
